@@ -97,6 +97,12 @@ pub const STATEMENTS: &[(&str, &str)] = &[
     ("box", "box { h q; }"),
     ("array-decl", "array[int[8], 2] arr;"),
     ("block", "{ int w; }"),
+    // a line-oriented lexeme as the brace-less body of a control-flow statement
+    ("if-annotation-body", "if (t) @note in body\n"),
+    ("else-annotation-body", "if (t) x q; else @note in body\n"),
+    ("while-annotation-body", "while (t) @note in body\n"),
+    ("for-annotation-body", "for int j in [0:1] @note in body\n"),
+    ("if-pragma-body", "if (t) pragma in body\n"),
 ];
 
 const TRIPLE_SUBSET: &[&str] = &["empty", "decl-int", "gate-call", "if-single", "if-else-single", "assign", "alias", "expr-stmt", "pragma", "annotation", "gate-def-empty", "for-set"];
@@ -287,7 +293,7 @@ fn check_single_body(i: usize, h: usize, obs: &mut Obs) {
         let msgs: Vec<String> = p.errors().iter().map(|e| e.to_string()).collect();
         let top: Vec<(String, String)> = p.tree().statements().map(|s| (format!("{:?}", s.syntax().kind()), norm(&s.syntax().text().to_string()))).collect();
         // the body: a statement node below the outer statement with the kind and text of the statement alone
-        let found = p.syntax_node().descendants().skip(1).any(|n| format!("{:?}", n.kind()) == alone.0 && norm(&n.text().to_string()) == alone.1 && n.text_range().end() == p.syntax_node().text_range().end());
+        let found = p.syntax_node().descendants().skip(1).any(|n| format!("{:?}", n.kind()) == alone.0 && norm(&n.text().to_string()) == alone.1);
         (nerr, msgs, top, found)
     });
     match r {
